@@ -538,6 +538,12 @@ func (bkt *Bucket) incr(ki *KeyInfo, value int) int {
 		return 0
 	}
 
+	if tofree != nil {
+		// the old value has been parsed: release its read buffer
+		cmem.DBRL.GetData.SubSizeAndCount(tofree.CArray.Cap)
+		tofree.CArray.Free()
+	}
+
 	payload := &Payload{}
 	payload.Flag = FLAG_INCR
 	payload.Ver = ver
